@@ -126,6 +126,47 @@ pub fn dust_floor_msat(sim: &Sim) -> u64 {
 	sim.dust_floor_msat()
 }
 
+/// Discriminating condition of the listed finding "revocation secret lost across a stale-manager reload": some node
+/// was restarted from a manager snapshot taken when more distinct revoke_and_ack messages had been delivered to it
+/// on a channel than CommitmentSecret steps are contained in the monitor image it restarted from (the update for
+/// the last revocation was still blocked inside the Channel), *and* that image's update id is not smaller than the
+/// id the blocked update would have had (a later, unblocked update took the id). LDK then drops the blocked
+/// update on load as "already applied".
+pub fn blocked_raa_update_lost_on_reload(sim: &Sim) -> bool {
+	use std::collections::BTreeSet;
+	for (r_step, ev) in sim.log.iter() {
+		let SEvent::Restart { node, snapshot_step, monitor_ids, ok: true, .. } = ev else { continue };
+		for (chan, used_id) in monitor_ids.iter() {
+			let mut raas: BTreeSet<[u8; 32]> = BTreeSet::new();
+			for (s, e) in sim.log.iter() {
+				if *s >= *snapshot_step {
+					break;
+				}
+				if let SEvent::Deliver { to, wire: Wire::Revoke(m), .. } = e {
+					if to == node && m.channel_id == *chan {
+						raas.insert(m.per_commitment_secret);
+					}
+				}
+			}
+			let mut secrets = 0usize;
+			for (s, e) in hist_since(0) {
+				if s >= *r_step {
+					break;
+				}
+				if let HEvent::PersistUpdate { node: n, chan: c, update_id: Some(id), steps, .. } = e {
+					if n == *node && c == *chan && id <= *used_id {
+						secrets += steps.iter().filter(|k| k.as_str() == "CommitmentSecret").count();
+					}
+				}
+			}
+			if raas.len() > secrets {
+				return true;
+			}
+		}
+	}
+	false
+}
+
 impl RestartOracle {
 	pub fn new(sim: &Sim) -> RestartOracle {
 		RestartOracle {
